@@ -8,7 +8,7 @@ from scapy.layers.dot15d4 import Dot15d4, Dot15d4FCS
 
 from whad.scapy.layers.dot15d4tap import Dot15d4Raw
 from whad.hub.message import pb_bind, PbFieldInt, PbFieldBytes, PbMessageWrapper, \
-    PbFieldBool, dissect_failsafe
+    PbFieldBool, dissect_failsafe, convert_failsafe
 from whad.hub.dot15d4 import Dot15d4Domain, Dot15d4Metadata
 
 logger = logging.getLogger(__name__)
@@ -33,6 +33,7 @@ class SendPdu(PbMessageWrapper):
         return packet
 
     @staticmethod
+    @convert_failsafe
     def from_packet(packet, channel: int = 11):
         """Convert a scapy packet to a SendPdu message
         """
@@ -73,6 +74,7 @@ class SendRawPdu(PbMessageWrapper):
         return packet
 
     @staticmethod
+    @convert_failsafe
     def from_packet(packet, channel: int = 11):
         """Convert a scapy packet to a SendPdu message
         """
@@ -162,6 +164,7 @@ class PduReceived(PbMessageWrapper):
         return packet
 
     @staticmethod
+    @convert_failsafe
     def from_packet(packet):
         """Convert scapy packet to a PduReceived message
         """
@@ -252,6 +255,7 @@ class RawPduReceived(PbMessageWrapper):
             return packet 
 
     @staticmethod
+    @convert_failsafe
     def from_packet(packet):
         """Convert packet to a RawPduReceived message.
         """
